@@ -92,6 +92,57 @@ func configMismatch(idx *index.Hnsw, c *hnCase) string {
 	return ""
 }
 
+// metricMismatch: the named metric of the index's space against a float64 reference of that metric (Euclidean: root of
+// the sum of squares; Manhattan: sum of absolute differences; cosine: 1 - dot / (|a||b|)).  The distance table of the
+// model is computed with the space's own Distance, so a space wired to another metric's kernel would go unnoticed there.
+func metricMismatch(c *hnCase) string {
+	sp := mkSpace(c.Cfg.Space)
+	for i := range c.Vecs {
+		for j := range c.Vecs {
+			a, bb := f32bitsVec(c.Vecs[i]), f32bitsVec(c.Vecs[j])
+			if len(a) != len(bb) {
+				continue
+			}
+			var ss, sa, dot, na, nb float64
+			fin := true
+			for k := range a {
+				x, y := float64(a[k]), float64(bb[k])
+				if math.IsNaN(x) || math.IsInf(x, 0) || math.IsNaN(y) || math.IsInf(y, 0) {
+					fin = false
+				}
+				ss += (x - y) * (x - y)
+				sa += math.Abs(x - y)
+				dot += x * y
+				na += x * x
+				nb += y * y
+			}
+			if !fin {
+				continue
+			}
+			var want float64
+			switch c.Cfg.Space {
+			case "manhattan":
+				want = sa
+			case "cosine":
+				if na == 0 || nb == 0 {
+					continue
+				}
+				want = 1 - dot/math.Sqrt(na*nb)
+			default:
+				want = math.Sqrt(ss)
+			}
+			got := float64(sp.Distance(a, bb))
+			if math.IsNaN(got) || math.IsInf(got, 0) || math.IsInf(want, 0) || want > 1e30 {
+				continue
+			}
+			if math.Abs(got-want) > 1e-3*(1+math.Abs(want)) {
+				return fmt.Sprintf("%s distance of %v and %v is %g through the index's space, %g by the definition of the metric", c.Cfg.Space, a, bb, got, want)
+			}
+		}
+	}
+	return ""
+}
+
 func distMatrix(c *hnCase) ([][]uint32, bool, bool) {
 	sp := mkSpace(c.Cfg.Space)
 	n := len(c.Vecs)
@@ -391,6 +442,9 @@ func runC01(a *args) error {
 		m, _, _ := distMatrix(c)
 		if why := configMismatch(newIndexFor(c), c); why != "" {
 			st.ImplFailures = append(st.ImplFailures, implFailure{Case: ci, What: why, Key: "config-not-as-requested", Input: c.Cfg})
+		}
+		if why := metricMismatch(c); why != "" {
+			st.ImplFailures = append(st.ImplFailures, implFailure{Case: ci, What: why, Key: "space-computes-another-metric", Input: c.Cfg})
 		}
 		panicked, msg := recoverPanic(func() { runHnCase(c) })
 		if panicked {
